@@ -196,8 +196,13 @@ def run_property(prop, tier, seed, jobs):
     for o in skipped:
         sk_names.setdefault(o["cid"], []).append(o)
     for cid_, lst in list(sk_names.items())[:40]:
-        print(f"NOTE property={prop} modular proof {cid_} skipped on {len(lst)} path(s) - the code no longer has the shape the contract was written for; "
-              f"the S / B contracts of the same function decide: {str(lst[0].get('detail'))[:240]}")
+        det = str(lst[0].get("detail"))
+        if det.startswith("target ") or "TargetMissing" in det:
+            print(f"NOTE property={prop} contract {cid_} skipped on {len(lst)} path(s) - the function it is written for no longer exists under that name (renamed / moved / inlined "
+                  f"helper); the contracts of its callers decide: {det[:240]}")
+        else:
+            print(f"NOTE property={prop} modular proof {cid_} skipped on {len(lst)} path(s) - the code no longer has the shape the contract was written for; "
+                  f"the S / B contracts of the same function decide: {det[:240]}")
     for c in crashes[:5]:
         print(f"CHECKER-ERROR: {c['cid']} {c['st']}: {c['crash'][:2000]}")
 
